@@ -264,7 +264,7 @@ def main() -> int:
         if impl.startswith("ERR") and len(tap.items) < len(stmts):
             dist["t4_failed_to_analyse"] += 1
             continue
-        abst = [abstract_holder(h) for _, h in tap.items]
+        abst = [abstract_holder(h) for _, h in tap.of_runner(lr)]
         t4.append((stmts, abst, impl))
     model4 = coq_eval(HEADER, [f"show_build {g_astmts(a)}" for _, a, _ in t4], shard=300)
     plain4 = [i for i, x in enumerate(t4) if all(is_plain(a) for a in x[1])]
